@@ -69,7 +69,9 @@ def answer (st : St) (id : String) (src fuel : Nat) (trace : List Nat) : String 
   -- was any candidate of a visited item dropped by the lasso cut-off?
   let cutAny := lassoCut st.g src trace s
   let pcut := pathCut st.g src trace s
-  s!"res {id} term={b01 term} ebe={b01 ebe} lassocut={b01 cutAny} pathcut={b01 pcut} visited={s.visited.length} bad={st.bad} flows={showNats flows}"
+  let si := runIdeal st.g src trace (fuel / 8)
+  let iflows := (flowsOfIdeal st.g si).foldl (fun acc x => insertSorted x acc) []
+  s!"res {id} term={b01 term} ebe={b01 ebe} lassocut={b01 cutAny} pathcut={b01 pcut} visited={s.visited.length} bad={st.bad} flows={showNats flows} idealterm={b01 si.queue.isEmpty} ideal={showNats iflows}"
 
 def showItem (a : Item) : String :=
   s!"(node {a.node} trace {a.trace} ctrace {a.ctrace} ct {a.ct} tinfo {a.tinfo} paths {a.paths} prev {a.prev})"
